@@ -10,8 +10,7 @@ are what `drvC08` runs against nitime.  Inputs are real (window, signals, Fs), e
   coherenceBavg / coherencyBavg         mirror  _coherence_bavg / _coherency_bavg
   phaseMat / delayOf                    mirror  coherency_phase_spectrum, CoherenceAnalyzer.phase,
                                                 _coherency_phase_delay, CoherenceAnalyzer.delay
-  coherencePartialSpec, partialOf       mirror  coherence_partial_spec and its intended callers;
-  partialOfCurrent                      mirrors what `coherence_partial` passes today
+  coherencePartialSpec, partialOf       mirror  coherence_partial_spec and its callers (coherence_partial, CoherenceAnalyzer.coherence_partial)
   mtCoherence                           mirrors MTCoherenceAnalyzer.coherence over mtm_cross_spectrum
 -/
 import Nitime.Lemmas.CohC
@@ -627,10 +626,11 @@ theorem mt_self_coherence_one (N nt : ℕ) (tx wx : List (List ℂ)) (k : ℕ)
   have h1 : P / Dx * d ≠ 0 := (mul_pos (div_pos hP hD) hd).ne'
   exact div_self (mul_ne_zero h1 h1)
 
-/-! ### what `coherence_partial` passes today: a counterexample
+/-! ### a witness where all of the x–y coupling comes from the common cause
 
-x = (3/5)·i·r + noise₁, y = (3/5)·i·r + noise₂ (unit-power r and noises): all of the x–y coupling
-comes from r, the true partial coherence is 0, the value computed from (f_xr, f_yr) is 81/64. -/
+x = (3/5)·i·r + noise₁, y = (3/5)·i·r + noise₂ (unit-power r and noises): f_xy = 9/25, f_xr = f_yr = (3/5)i.
+The partial coherence is 0.  (Before repair 1cdba75 `coherence_partial` passed f_yr where f_ry belongs
+and returned 81/64 on these spectra.) -/
 
 /-- semi-filled spectral matrix of the witness (one frequency bin) -/
 noncomputable def witness : ℕ → ℕ → ℕ → ℂ := fun i j _ =>
@@ -638,17 +638,7 @@ noncomputable def witness : ℕ → ℕ → ℕ → ℂ := fun i j _ =>
 
 theorem sqrt_one' : CScalar.sqrt (1 : ℂ) = 1 := by rw [c_sqrt]; simp
 
-theorem partial_current_counterexample :
-    partialOfCurrent witness 0 1 2 0 = ((81 / 64 : ℝ) : ℂ) ∧ ¬ (partialOfCurrent witness 0 1 2 0).re ≤ 1 := by
-  have h : partialOfCurrent witness 0 1 2 0 = ((81 / 64 : ℝ) : ℂ) := by
-    unfold partialOfCurrent coherencePartialSpec hermSpec witness coherencySpec
-    simp only [c_div, c_mul, c_sub, c_ofNat, c_abs, abs_mul_abs]
-    norm_num [Complex.normSq_apply, sqrt_one']
-  refine ⟨h, ?_⟩
-  rw [h, Complex.ofReal_re]; norm_num
-
-/-- on the same witness the intended orientation gives 0 -/
-theorem partial_intended_on_witness : partialOf witness 0 1 2 0 = 0 := by
+theorem partial_on_witness : partialOf witness 0 1 2 0 = 0 := by
   unfold partialOf coherencePartialSpec hermSpec witness coherencySpec
   simp only [c_div, c_mul, c_sub, c_ofNat, c_abs, c_conj, abs_mul_abs]
   norm_num [Complex.normSq_apply, sqrt_one', Complex.conj_ofNat]
